@@ -207,7 +207,9 @@ structure Since (t : Nat) (W : World) : Prop where
   metas : ∀ m ∈ W.metas, t ≤ m.id.ms
 
 theorem newId_ms (cfg : Cfg) (W : World) : (newId cfg W).ms = W.clock := by
-  unfold newId; split <;> rfl
+  unfold newId; split
+  · rfl
+  · split <;> rfl
 
 theorem since_step (c : Codec) (cfg : Cfg) {t : Nat} {W : World} (h : Since t W) (op : Op) :
     Since t (step c cfg W op).1 := by
@@ -276,7 +278,9 @@ theorem ckIds_since (c : Codec) (cfg : Cfg) {t : Nat} {W : World} (h : Since t W
       · exact ih' j hj
     · exact ih'
 
-/-- **restore_after_crash_then_continue.** Let a process die at ANY numbered crash point `k` of a `checkpoint` after any
+/-- **restore_after_crash_then_continue_later_ms** (the statement as it stood before fix-C20b; still the strongest one
+for a restart that takes at least a millisecond: it covers EVERY directory entry, the file-less ones included).
+Let a process die at ANY numbered crash point `k` of a `checkpoint` after any
 history (`k` past the end: it exits normally after the call), and let a NEW store be opened on the directory it left
 at a clock reading `t` later than the millisecond of every surviving directory (time has passed during the restart).
 Whatever the new store then does (`pre`, a checkpoint, `post`):
@@ -286,7 +290,7 @@ Whatever the new store then does (`pre`, a checkpoint, `post`):
   left — no checkpoint of the earlier life is aliased;
 * every directory the dead process left — every earlier checkpoint and the interrupted one — stays byte-for-byte what
   it was at the crash (so what a restore of it yields, settled by `crash_at_any_point_*`, never changes). -/
-theorem restore_after_crash_then_continue (c : Codec) (hc : c.Lawful) (cfg : Cfg) (hl : cfg.legacy = false)
+theorem restore_after_crash_then_continue_later_ms (c : Codec) (hc : c.Lawful) (cfg : Cfg) (hl : cfg.legacy = false)
     (hf : cfg.file = true) (ops : List Op) (k t : Nat) (pre post : List Op) :
     let W := run c cfg init ops
     let F := crashAt c cfg W k
@@ -308,7 +312,7 @@ theorem restore_after_crash_then_continue (c : Codec) (hc : c.Lawful) (cfg : Cfg
   have h2 : Inv (checkpoint c cfg W₁).1 := inv_step c hl h1 .checkpoint
   refine ⟨?_, ?_, ?_⟩
   · have ht : Tracks i (c.ser (live W₁.store W₁.clock)) W₃ :=
-      tracks_run c hl hf h2 (tracks_new c hl hf h1) post
+      tracks_run c hl hf h2.toR (tracks_new c hl hf h1.toR) post
     obtain ⟨_, hcase⟩ := ht
     have hnd := live_nodup W₁.clock h1.store_nodup
     constructor
@@ -352,22 +356,190 @@ example :
     live (restore natCodec {} W₃ ⟨0, 0⟩).1.store 1 = [(0, 7)] ∧
     (restore natCodec {} W₃ ⟨0, 1⟩).2 = .errParse := by decide
 
-/-- the statement of `restore_after_crash_then_continue` about the surviving directories WITHOUT the hypothesis that the
-clock has moved on (only: it did not go back) -/
-def reopen_preserves_survivors_full : Prop :=
-  ∀ (cfg : Cfg), cfg.legacy = false → cfg.file = true → ∀ (ops : List Op) (k t : Nat) (ops₂ : List Op),
-    (run natCodec cfg init ops).clock ≤ t →
-    ∀ e, fget (crashAt natCodec cfg (run natCodec cfg init ops) k) e ≠ none →
-      fget (run natCodec cfg (reopen (crashAt natCodec cfg (run natCodec cfg init ops) k) t) ops₂).fs e
-        = fget (crashAt natCodec cfg (run natCodec cfg init ops) k) e
+/-! ### after fix-C20b: a store opened on ANY directory at ANY clock reading -/
 
-/-- **reopen_same_ms_aliases_counterexample** (finding F-C20b). `checkpoint_seq` restarts at 0 in a new store and the
-directory is not consulted: reopened within the SAME millisecond, the new store's first checkpoint gets the id of the
-dead store's first checkpoint and overwrites it (`[1,0,7,0]` becomes `[1,0,9,0]`). -/
-theorem reopen_same_ms_aliases_counterexample : ¬ reopen_preserves_survivors_full := by
+/-- checkpoint file `e` (content `bytes`) is on disk and the store does not list it (so retention will never retire it) -/
+def Keeps (e : Id) (bytes : List Nat) (W : World) : Prop :=
+  fget W.fs e = some (some bytes) ∧ ∀ m ∈ W.metas, m.id ≠ e
+
+theorem keeps_step (c : Codec) {cfg : Cfg} (hl : cfg.legacy = false) (hf : cfg.file = true) (hs : cfg.noSkip = false)
+    {W : World} {e : Id} {bytes : List Nat} (h : Keeps e bytes W) (op : Op) : Keeps e bytes (step c cfg W op).1 := by
+  by_cases hop : op = .checkpoint
+  · subst hop
+    obtain ⟨hfile, hmetas⟩ := h
+    have hfree := newId_free hl hf hs W
+    have hne : e ≠ newId cfg W := by
+      intro x; rw [← x, hfile] at hfree; simp [isFile] at hfree
+    have hv : victimOf cfg.maxCk W.metas (newId cfg W) ≠ some e := by
+      unfold victimOf
+      split
+      · cases hm : W.metas with
+        | nil => simp; exact fun x => hne x.symm
+        | cons m r => simp; exact hmetas m (by rw [hm]; simp)
+      · simp
+    refine ⟨?_, ?_⟩
+    · simp only [step, checkpoint, hf, if_true, ck_fs_final]
+      simp [hv, hne, hfile]
+    · intro m hm
+      simp only [step, checkpoint] at hm
+      have := (retain_sublist _ _).subset hm
+      simp only [List.mem_append, List.mem_singleton] at this
+      rcases this with hm' | hm'
+      · exact hmetas m hm'
+      · rw [hm']; exact fun x => hne x.symm
+  · obtain ⟨_, h2, h3⟩ := step_frame c cfg W op hop
+    unfold Keeps; rw [h2, h3]; exact h
+
+theorem keeps_run (c : Codec) {cfg : Cfg} (hl : cfg.legacy = false) (hf : cfg.file = true) (hs : cfg.noSkip = false)
+    {W : World} {e : Id} {bytes : List Nat} (h : Keeps e bytes W) (ops : List Op) : Keeps e bytes (run c cfg W ops) := by
+  induction ops generalizing W with
+  | nil => exact h
+  | cons op r ih => exact ih (keeps_step c hl hf hs h op)
+
+/-- no id handed out names a checkpoint file of the directory `F` the store was opened on -/
+theorem ckIds_not_file (c : Codec) {cfg : Cfg} (hl : cfg.legacy = false) (hf : cfg.file = true) (hs : cfg.noSkip = false)
+    (F : List (Id × Option (List Nat))) {W : World}
+    (h : ∀ e bytes, fget F e = some (some bytes) → Keeps e bytes W) (ops : List Op) :
+    ∀ j ∈ ckIds c cfg W ops, isFile (fget F j) = false := by
+  induction ops generalizing W with
+  | nil => simp [ckIds]
+  | cons op r ih =>
+    have ih' := ih (W := (step c cfg W op).1) (fun e b he => keeps_step c hl hf hs (h e b he) op)
+    simp only [ckIds]
+    split
+    · rename_i i hi
+      obtain ⟨_, hid⟩ := step_ckpt_out hi
+      intro j hj
+      rcases List.mem_cons.mp hj with e | hj
+      · cases hF : fget F j with
+        | none => rfl
+        | some x =>
+          cases x with
+          | none => rfl
+          | some b =>
+            have hk := (h j b hF).1
+            have hfree := newId_free hl hf hs W
+            rw [← hid, ← e, hk] at hfree
+            simp [isFile] at hfree
+      · exact ih' j hj
+    · exact ih'
+
+/-- **reopen_on_any_directory** (fix-C20b). Open a NEW store at ANY clock reading `t` - the same millisecond as an
+earlier life, an earlier one - on ANY directory `F` (whatever an earlier life, a crash, anybody left there). Whatever the
+store then does (`pre`, a checkpoint, `post`):
+* its checkpoint, while listed, restores exactly the unexpired keys/values of the moment it was taken, and reports "not
+  found" once retired;
+* the ids it hands out are pairwise distinct and none of them names a checkpoint FILE of `F`;
+* every checkpoint file of `F` stays byte-for-byte what it was.
+No hypothesis on the clock: the sequence number skips the ids that are taken (`freeSeq`). -/
+theorem reopen_on_any_directory (c : Codec) (hc : c.Lawful) (cfg : Cfg) (hl : cfg.legacy = false)
+    (hf : cfg.file = true) (hs : cfg.noSkip = false) (F : List (Id × Option (List Nat))) (t : Nat) (pre post : List Op) :
+    let W₁ := run c cfg (reopen F t) pre
+    let i := (checkpoint c cfg W₁).2
+    let W₃ := run c cfg (checkpoint c cfg W₁).1 post
+    ((i ∈ W₃.metas.map (·.id) → encodable c (live W₁.store W₁.clock) = true →
+        (restore c cfg W₃ i).2 = .ok
+        ∧ live (restore c cfg W₃ i).1.store (restore c cfg W₃ i).1.clock = live W₁.store W₁.clock)
+      ∧ (i ∉ W₃.metas.map (·.id) → restore c cfg W₃ i = (W₃, .errNotFound)))
+    ∧ ((ckIds c cfg (reopen F t) (pre ++ .checkpoint :: post)).Nodup
+        ∧ ∀ j ∈ ckIds c cfg (reopen F t) (pre ++ .checkpoint :: post), isFile (fget F j) = false)
+    ∧ (∀ e bytes, fget F e = some (some bytes) → fget W₃.fs e = some (some bytes)) := by
+  intro W₁ i W₃
+  have h0 : InvR (reopen F t) := ⟨by simp [reopen], by simp [reopen], by simp [reopen]⟩
+  have k0 : ∀ e bytes, fget F e = some (some bytes) → Keeps e bytes (reopen F t) :=
+    fun e b he => ⟨he, by simp [reopen]⟩
+  have h1 : InvR W₁ := invR_run c hl h0 pre
+  have h2 : InvR (checkpoint c cfg W₁).1 := invR_step c hl h1 .checkpoint
+  refine ⟨?_, ?_, ?_⟩
+  · have ht : Tracks i (c.ser (live W₁.store W₁.clock)) W₃ :=
+      tracks_run c hl hf h2 (tracks_new c hl hf h1) post
+    obtain ⟨_, hcase⟩ := ht
+    have hnd := live_nodup W₁.clock h1.store_nodup
+    constructor
+    · intro hin he
+      rcases hcase with ⟨_, hfs⟩ | ⟨hnot, _⟩
+      · have hr : restore c cfg W₃ i
+            = ({ W₃ with store := load (live W₁.store W₁.clock) W₃.clock }, .ok) := by
+          simp [restore, hf, hfs, hc.roundtrip _ he]
+        rw [hr]
+        exact ⟨rfl, live_load _ _ hnd⟩
+      · exact absurd hin hnot
+    · intro hnot
+      rcases hcase with ⟨hin, _⟩ | ⟨_, hfs⟩
+      · exact absurd hin hnot
+      · simp [restore, hf, hfs]
+  · exact ⟨(ckIds_fresh c hl _ _).1, ckIds_not_file c hl hf hs F k0 _⟩
+  · intro e bytes he
+    have : W₃ = run c cfg (reopen F t) (pre ++ .checkpoint :: post) := by
+      simp [W₃, W₁, run, List.foldl_append, step]
+    rw [this]
+    exact (keeps_run c hl hf hs (k0 e bytes he) _).1
+
+/-- **restore_after_crash_then_continue** (after fix-C20b: no clock hypothesis). Let a process die at ANY numbered crash
+point `k` of a `checkpoint` after any history, and let a NEW store be opened on the directory it left at ANY clock reading
+`t` - also within the very millisecond of the dead store's checkpoints. Whatever the new store then does, its checkpoint
+restores exactly its state while listed, its ids are pairwise distinct and name no checkpoint file the dead process left,
+and every such file - every earlier checkpoint and what there is of the interrupted one - stays byte-for-byte what it was
+at the crash (so what a restore of it yields, settled by `crash_at_any_point_*`, never changes). -/
+theorem restore_after_crash_then_continue (c : Codec) (hc : c.Lawful) (cfg : Cfg) (hl : cfg.legacy = false)
+    (hf : cfg.file = true) (hs : cfg.noSkip = false) (ops : List Op) (k t : Nat) (pre post : List Op) :
+    let W := run c cfg init ops
+    let F := crashAt c cfg W k
+    let W₁ := run c cfg (reopen F t) pre
+    let i := (checkpoint c cfg W₁).2
+    let W₃ := run c cfg (checkpoint c cfg W₁).1 post
+    ((i ∈ W₃.metas.map (·.id) → encodable c (live W₁.store W₁.clock) = true →
+        (restore c cfg W₃ i).2 = .ok
+        ∧ live (restore c cfg W₃ i).1.store (restore c cfg W₃ i).1.clock = live W₁.store W₁.clock)
+      ∧ (i ∉ W₃.metas.map (·.id) → restore c cfg W₃ i = (W₃, .errNotFound)))
+    ∧ ((ckIds c cfg (reopen F t) (pre ++ .checkpoint :: post)).Nodup
+        ∧ ∀ j ∈ ckIds c cfg (reopen F t) (pre ++ .checkpoint :: post), isFile (fget F j) = false)
+    ∧ (∀ e bytes, fget F e = some (some bytes) → fget W₃.fs e = some (some bytes)) := by
+  intro W F
+  exact reopen_on_any_directory c hc cfg hl hf hs F t pre post
+
+/-- the witness of F-C20b after the fix: the dead store took ⟨0,0⟩ and ⟨0,1⟩; reopened in the SAME millisecond the new
+store's first checkpoint gets ⟨0,2⟩, both earlier files are intact and all three restore their own state -/
+example :
+    let W := run natCodec {} init [.put 0 7, .checkpoint, .put 0 8]
+    let F := crashAt natCodec {} W 99
+    let W₃ := run natCodec {} (reopen F 0) [.put 0 9, .checkpoint]
+    ckIds natCodec {} (reopen F 0) [.put 0 9, .checkpoint] = [⟨0, 2⟩] ∧
+    live (restore natCodec {} W₃ ⟨0, 0⟩).1.store 0 = [(0, 7)] ∧
+    live (restore natCodec {} W₃ ⟨0, 1⟩).1.store 0 = [(0, 8)] ∧
+    live (restore natCodec {} W₃ ⟨0, 2⟩).1.store 0 = [(0, 9)] := by decide
+
+/-- the statement of `restore_after_crash_then_continue` about the surviving checkpoint files, for the code before
+(`noSkip = true`) / after (`false`) fix-C20b, with the reference codec -/
+def reopen_preserves_files (noSkip : Bool) : Prop :=
+  ∀ (cfg : Cfg), cfg.legacy = false → cfg.file = true → cfg.noSkip = noSkip → ∀ (ops : List Op) (k t : Nat) (ops₂ : List Op),
+    (run natCodec cfg init ops).clock ≤ t →
+    ∀ e bytes, fget (crashAt natCodec cfg (run natCodec cfg init ops) k) e = some (some bytes) →
+      fget (run natCodec cfg (reopen (crashAt natCodec cfg (run natCodec cfg init ops) k) t) ops₂).fs e = some (some bytes)
+
+/-- **reopen_same_ms_aliases_counterexample** (finding F-C20b, the code BEFORE fix-C20b). `checkpoint_seq` restarts at 0
+in a new store and the directory was not consulted: reopened within the SAME millisecond, the new store's first
+checkpoint got the id of the dead store's first checkpoint and overwrote it (`[1,0,7,0]` became `[1,0,9,0]`). -/
+theorem reopen_same_ms_aliases_counterexample : ¬ reopen_preserves_files true := by
   intro h
-  have := h {} rfl rfl [.put 0 7, .checkpoint] 99 0 [.put 0 9, .checkpoint] (by decide) ⟨0, 0⟩ (by decide)
+  have := h { noSkip := true } rfl rfl rfl [.put 0 7, .checkpoint] 99 0 [.put 0 9, .checkpoint] (by decide) ⟨0, 0⟩
+    [1, 0, 7, 0] (by decide)
   revert this
   decide
+
+/-- … and after the fix the statement holds (for every clock reading, not only `clock ≤ t`) -/
+theorem reopen_preserves_files_fixed : reopen_preserves_files false := by
+  intro cfg hl hf hs ops k t ops₂ _ e bytes he
+  exact (keeps_run natCodec hl hf hs ⟨he, by simp [reopen]⟩ ops₂).1
+
+/-- what the fix does NOT give (residual of F-C20b): the directory remembers only the checkpoints that still have a file.
+An id the earlier life handed out and retention RETIRED since (⟨0,0⟩, `max_checkpoints = 1`) is handed out again by a
+store reopened within the same millisecond - no checkpoint is damaged, but the two ids are equal. -/
+theorem reopen_same_ms_reuses_retired_id_counterexample :
+    let cfg : Cfg := { maxCk := 1 }
+    let ops : List Op := [.put 0 7, .checkpoint, .put 0 8, .checkpoint]
+    let F := crashAt natCodec cfg (run natCodec cfg init ops) 99
+    ckIds natCodec cfg init ops = [⟨0, 0⟩, ⟨0, 1⟩]
+    ∧ ckIds natCodec cfg (reopen F 0) [.put 0 9, .checkpoint] = [⟨0, 0⟩] := by decide
 
 end C20
